@@ -23,7 +23,10 @@ Fixpoint ident_eqb (a b : ident) : bool :=
 
 (* "super" *)
 Definition super_id : ident := [115; 117; 112; 101; 114]%N.
-Definition is_super (id : ident) : bool := ident_eqb id super_id.
+(* Identifier::is_super lower-cases first (`SUPER.x`, `Super.x` are `super.x`); identifiers are otherwise
+   case-sensitive.  ASCII. *)
+Definition to_lower (c : N) : N := if N.leb 65 c && N.leb c 90 then (c + 32)%N else c.
+Definition is_super (id : ident) : bool := ident_eqb (map to_lower id) super_id.
 Definition contains_super (p : path) : bool := existsb is_super p.
 
 Record edge := mkEdge { e_src : node; e_lbl : ident; e_dst : node }.
